@@ -238,7 +238,7 @@ func lcCensus() map[string]int {
 		if strings.Contains(g, "dastard.CoreLoop(") {
 			out["core"]++
 		}
-		if strings.Contains(g, "TriangleSource).StartRun.func1") || strings.Contains(g, "ErroringSource).StartRun.func1") {
+		if strings.Contains(g, "TriangleSource).StartRun.func1") || strings.Contains(g, "ErroringSource).StartRun.func1") || strings.Contains(g, "SimPulseSource).StartRun.func1") {
 			out["producer"]++
 		}
 	}
@@ -315,6 +315,11 @@ func lcRun(id int, sc *lcScen, base string) {
 		// table); give it the one code a real one-channel source has, so that write requests can be part of a history
 		// in which the source ends by itself
 		ctl.erroring.rowColCodes = []RowColCode{rcCode(0, 0, 1, 1)}
+	} else if sc.Producer == "simpulse" { // free-running schedules only: the third simulated producer loop
+		srcName = "SIMPULSESOURCE"
+		if err := ctl.simPulses.Configure(&SimPulseSourceConfig{Nchan: 2, SampleRate: 20000, Pedestal: 1000, Amplitudes: []float64{3000, 5000}, Nsamp: 200}); err != nil {
+			panic(err)
+		}
 	} else {
 		if err := ctl.triangle.Configure(&TriangleSourceConfig{Nchan: 2, SampleRate: 20000, Min: 100, Max: 400}); err != nil {
 			panic(err)
@@ -338,6 +343,8 @@ func lcRun(id int, sc *lcScen, base string) {
 	var ds DataSource = ctl.triangle
 	if sc.Producer == "erroring" {
 		ds = ctl.erroring
+	} else if sc.Producer == "simpulse" {
+		ds = ctl.simPulses
 	}
 	expect := func(role string, points ...string) string {
 		a, ok := lcExpect(role, lcWait)
